@@ -152,6 +152,9 @@ def hashes_value(draw, m, desc):
 @st.composite
 def dictionary_value(draw, ver, opts):
     keys = draw(st.lists(DICT_KEY, min_size=1, max_size=3, unique=True))
+    if draw(st.integers(0, 11)) == 0:
+        # keys at the length limits: 3..256 characters in 2.0, 1..250 in 2.1
+        keys.append(draw(st.sampled_from(["k" * 250, "K" * 256, "kk-" * 85] if ver == "2.0" else ["k" * 250, "K" * 249, "k", "Z9"])))
     leaf = st.one_of(string_value(opts), st.integers(-5, 10 ** 6), st.booleans(), st.lists(st.text(max_size=3, alphabet="abc"), min_size=1, max_size=2),
                      st.dictionaries(DICT_KEY, st.text(max_size=3, alphabet="xyz"), min_size=1, max_size=2), st.sampled_from([0, "", False, 1.5]))
     return {k: draw(leaf) for k in keys}
@@ -486,7 +489,9 @@ def add_granular_markings(draw, ctx, clsname, doc):
     mode = ctx.opts.get("selectors", "safe")
     if mode == "none" or not draw(st.booleans()):
         return
-    paths = [p for p in all_paths(doc) if re.match(r"^[a-z0-9_-]{3,250}(\.(\[\d+\]|[a-zA-Z0-9_-]{1,250}))*$", p) or p == "id"]
+    # a path step is a property name or a dictionary key: at most 250 characters in 2.1, 256 for 2.0 dictionary keys
+    step = 256 if ver == "2.0" else 250
+    paths = [p for p in all_paths(doc) if re.match(r"^[a-z0-9_-]{3,250}(\.(\[\d+\]|[a-zA-Z0-9_-]{1,%d}))*\Z" % step, p) or p == "id"]
     if mode == "safe":
         paths = [p for p in paths if "." not in p and get_path(doc, p) not in (False, 0, "", 0.0)]
     if not paths:
@@ -494,6 +499,9 @@ def add_granular_markings(draw, ctx, clsname, doc):
     gms = []
     for _ in range(draw(st.integers(1, 2))):
         sels = draw(st.lists(st.sampled_from(sorted(paths)), min_size=1, max_size=3, unique=True))
+        longest = max(paths, key=lambda p: (max(len(c) for c in p.split(".")), p))
+        if mode != "safe" and len(longest) > 240 and longest not in sels and draw(st.booleans()):
+            sels.append(longest)     # a step at the length limit is rare among the paths: preferred when there is one
         gm = {"selectors": sels}
         if ver == "2.1" and draw(st.integers(0, 3)) == 0:
             gm["lang"] = draw(st.sampled_from(LANGS))
